@@ -62,6 +62,7 @@ class C19(Engine):
     quick_budget = 45
     quick_runs = 25000
     thorough_budget = 600
+    variants = ("small",)
     rule = ("run i = one forked naken_util lifetime (real main(), scripted console) on a CPU with 1/2/4/8 bytes per address and either "
             "byte order: optional load of a seeded bin/hex image (with -address/-set_pc), then 8-40 commands write/write16/write32 "
             "(1-20 values, decimal / 0x / h-suffix / negative spellings, aligned and - on alignment-1 CPUs - unaligned), "
@@ -74,6 +75,12 @@ class C19(Engine):
                    "write* stopping at a malformed value is modelled as the prefix it reports, commands are not assumed atomic"]
 
     def plan(self, rng, index):
+        plan = self._plan(rng, index)
+        # every third run uses the small-page / small-pool build of /repo
+        plan["build"] = "small" if index % 3 == 2 else "san"
+        return plan
+
+    def _plan(self, rng, index):
         cpu = CPUS[index % len(CPUS)] if index < 2 * len(CPUS) else rng.pick(CPUS)
         info = progs.cpu_info(cpu)
         bpa, align = info["bpa"], info["align"]
@@ -160,6 +167,7 @@ class C19(Engine):
     # ------------------------------------------------------------------
     def run(self, ex, plan):
         res = RunResult()
+        ex = self.variant(ex, plan.get("build"))
         cpu = plan["cpu"]
         info = progs.cpu_info(cpu)
         bpa, align, big = info["bpa"], info["align"], info["endian"] == "big"
